@@ -1,7 +1,7 @@
 PROP = dict(
     id="C19",
     lean_modules=["TongoProofs.C19"],
-    gen=[],
+    gen=["TonConnectConsts"],
     # the model IS the specification here: the signed digest layout, the MAC/expiry rule of the payload, the accept/
     # reject decision and the key returned are what the property states
     spec_ops=("tc.msg", "tc.payload", "tc.parse", "tc.check", "prim.hmac256", "prim.sha256"),
@@ -17,6 +17,7 @@ PROP = dict(
          "boundary cases (lifetime -1/0/+1 s) and end-to-end flows as direct oracles. "
          "non-trivial = distinct (version, key pair) with its family of proofs",
     trusted_base=[
+        "translator TonConnectConsts (harness/cmd/extract, go/ast): the two prefixes and the default lifetimes are re-read from tonconnect/server.go on every run and stated as decide-d obligations against the model",
         "hand model lean/TongoModel/TonConnect.lean tied to tonconnect/server.go, proof.go by correspondence on every run",
         "Lean SHA-256 and HMAC-SHA-256 (TongoModel/Prim) validated against crypto/sha256, crypto/hmac on every run",
         "results of standard-library / already-covered parsers are inputs of the model: base64 decoding of the signature, "
